@@ -13,6 +13,7 @@ import (
 	"encoding/base64"
 	"encoding/json"
 	"fmt"
+	"io"
 	"net"
 	"os"
 	"os/exec"
@@ -352,6 +353,105 @@ func c16Run(c *c16Case, idx int) c16Obs {
 	return o
 }
 
+// c16Chatty: a serving plugin whose implementation prints to os.Stdout / os.Stderr inside an RPC (go-plugin has swapped
+// those for its pipes by then): the plugin's REAL stdout must still carry nothing but the handshake line.
+func c16Chatty(proto string, idx int) (impl, pred string) {
+	work := os.Getenv("VERIF_WORK")
+	if work == "" {
+		work = os.TempDir()
+	}
+	dir, err := os.MkdirTemp(work, fmt.Sprintf("chatty%d-", idx))
+	if err != nil {
+		return "setup-error", "FAIL:setup"
+	}
+	defer os.RemoveAll(dir)
+	cmd := kitCmd(kitServeCfg{Sets: map[string]string{"3": proto}, GRPCServer: proto == "grpc"}, "TMPDIR="+dir,
+		kitCookieKey+"="+kitCookieVal, "PLUGIN_PROTOCOL_VERSIONS=3")
+	pr, pw, err := os.Pipe()
+	if err != nil {
+		return "setup-error", "FAIL:setup"
+	}
+	defer pr.Close()
+	cmd.Stdout = pw
+	cmd.Stderr = io.Discard
+	if err := cmd.Start(); err != nil {
+		pw.Close()
+		return "setup-error", "FAIL:setup"
+	}
+	pw.Close()
+	defer func() { cmd.Process.Kill(); cmd.Wait() }()
+	var mu sync.Mutex
+	var acc []byte
+	go func() {
+		buf := make([]byte, 4096)
+		for {
+			n, err := pr.Read(buf)
+			mu.Lock()
+			acc = append(acc, buf[:n]...)
+			mu.Unlock()
+			if err != nil {
+				return
+			}
+		}
+	}()
+	line := ""
+	for dl := time.Now().Add(10 * time.Second); time.Now().Before(dl); time.Sleep(10 * time.Millisecond) {
+		mu.Lock()
+		i := bytes.IndexByte(acc, '\n')
+		if i >= 0 {
+			line = string(acc[:i])
+		}
+		mu.Unlock()
+		if line != "" {
+			break
+		}
+	}
+	parts := strings.Split(line, "|")
+	if len(parts) < 5 {
+		return fmt.Sprintf("noline:%s", hxs(line)), "FAIL:no-handshake-line"
+	}
+	var addr net.Addr
+	if parts[2] == "unix" {
+		addr = &net.UnixAddr{Name: parts[3], Net: "unix"}
+	} else {
+		addr, _ = net.ResolveTCPAddr("tcp", parts[3])
+	}
+	client := plugin.NewClient(&plugin.ClientConfig{
+		HandshakeConfig: kitHandshake(), Plugins: kitHostSets(map[int]string{3: proto}, nil, nil)[3],
+		AllowedProtocols: []plugin.Protocol{plugin.ProtocolNetRPC, plugin.ProtocolGRPC}, Logger: nullLogger(),
+		Reattach:   &plugin.ReattachConfig{Protocol: plugin.Protocol(proto), ProtocolVersion: 3, Addr: addr, Pid: cmd.Process.Pid},
+		SyncStdout: io.Discard, SyncStderr: io.Discard,
+	})
+	called := false
+	withTimeout(10*time.Second, func() error {
+		cp, err := client.Client()
+		if err != nil {
+			return err
+		}
+		raw, err := cp.Dispense("kit")
+		if err != nil {
+			return err
+		}
+		if err := raw.(Kit).Emit([]byte("hello-from-the-plugin-implementation\n"), []byte("and-on-stderr\n")); err != nil {
+			return err
+		}
+		called = true
+		return nil
+	})
+	time.Sleep(400 * time.Millisecond)
+	mu.Lock()
+	rest := string(acc[len(line)+1:])
+	mu.Unlock()
+	impl = fmt.Sprintf("called=%s rest=%d", b01(called), len(rest))
+	switch {
+	case !called:
+		return impl, "FAIL:setup-call"
+	case rest != "":
+		return impl, "FAIL:further-output-on-real-stdout"
+	}
+	return impl, "ok"
+}
+
 func exitCodeOf(err error) int {
 	if err == nil {
 		return 0
@@ -683,6 +783,10 @@ func hostC16(o *out, replay string) {
 		if strings.Contains(r.impl, " cert=1 ") {
 			withCert++
 		}
+	}
+	for i, proto := range []string{"netrpc", "grpc"} {
+		impl, pred := c16Chatty(proto, i)
+		o.emit("!C16.chatty proto="+proto, impl, pred)
 	}
 	o.note("C16 launches=%d (real plugin subprocesses, exec directly) outcomes=%v six-field=%d seven-field=%d with-certificate=%d",
 		len(cases), byOutcome, served6, served7, withCert)
